@@ -1642,7 +1642,15 @@ class Translator(InterpCall):
     def st_Pass(self, s, fr):
         pass
 
-    st_Break = st_Continue = st_Global = st_Nonlocal = st_Delete = st_ClassDef = st_Pass
+    st_Break = st_Continue = st_Global = st_Nonlocal = st_ClassDef = st_Pass
+
+    def st_Delete(self, s, fr):
+        # `del self.a` determines the attribute's state in this call (for the stale-read diagnostic)
+        for t in s.targets:
+            if isinstance(t, ast.Attribute) and isinstance(t.value, ast.Name) and self.must is not None:
+                ov = fr.env.get(t.value.id)
+                if isinstance(ov, R) and ov.obj == "self":
+                    self.must.add("self." + t.attr)
 
     def st_Import(self, s, fr):
         for a in s.names:
@@ -1777,9 +1785,26 @@ class Translator(InterpCall):
             fr.env, self.must, fr.narrow = saved_env, saved_must, saved_narrow
         return res
 
+    def _hasattr_test(self, test, fr):
+        """(key, negated) when test is [not] hasattr(self, "<const>")"""
+        neg = False
+        if isinstance(test, ast.UnaryOp) and isinstance(test.op, ast.Not):
+            test, neg = test.operand, True
+        if isinstance(test, ast.Call) and isinstance(test.func, ast.Name) and test.func.id == "hasattr" \
+                and len(test.args) == 2 and isinstance(test.args[0], ast.Name) and isinstance(test.args[1], ast.Constant):
+            ov = fr.env.get(test.args[0].id)
+            if isinstance(ov, R) and ov.obj == "self":
+                return "self." + str(test.args[1].value), neg
+        return None, False
+
     def st_If(self, s, fr):
         t = self.truth(s.test, fr)
+        hkey, hneg = self._hasattr_test(s.test, fr) if self.must is not None else (None, False)
+        nstale = len(self.u.stale)
         self.ev(s.test, fr)
+        hstale = self.u.stale[nstale:] if hkey else []
+        if hkey:
+            del self.u.stale[nstale:]
         nar = self.narrowing(s.test, fr)
         if t is True:
             e, m = self._branch(s.body, fr, fr.env, self.must, nar)
@@ -1793,14 +1818,24 @@ class Translator(InterpCall):
                 raise Terminated()
             fr.env, self.must = e, m
             return
-        e1, m1 = self._branch(s.body, fr, fr.env, self.must, nar)
-        e2, m2 = self._branch(s.orelse, fr, fr.env, self.must)
+        mt, mf = self.must, self.must
+        if hkey:
+            # where hasattr(self, "a") is false the attribute is known to be absent: its state is determined
+            absent = set(self.must) | {hkey}
+            if hneg:
+                mt = absent
+            else:
+                mf = absent
+        e1, m1 = self._branch(s.body, fr, fr.env, mt, nar)
+        e2, m2 = self._branch(s.orelse, fr, fr.env, mf)
         if e1 is None and e2 is None:
             raise Terminated()
         fr.env = self.merge_envs([e1, e2])
         if self.must is not None:
             live = [m for e, m in ((e1, m1), (e2, m2)) if e is not None]
             self.must = set.intersection(*live) if live else self.must
+            if hkey and hkey not in self.must:
+                self.u.stale += hstale       # the test consulted state that this call does not determine
 
     def _loop(self, s, fr, bind):
         names = _assigned_names(s.body)
